@@ -459,6 +459,21 @@ pub fn open_store(dir: &Path, cfg: &SpecCfg, knobs: Knobs) -> Result<Bitcask, St
 }
 
 /// Silence the default panic message of panics we deliberately catch.
+/// Panics of the code under test are data (the drivers catch them and record the outcome); their messages are kept so
+/// that a driver can say WHAT panicked (an arithmetic overflow of a counter, say).
+pub static PANIC_MESSAGES: std::sync::Mutex<Vec<String>> = std::sync::Mutex::new(Vec::new());
 pub fn quiet_panics() {
-    std::panic::set_hook(Box::new(|_| {}));
+    std::panic::set_hook(Box::new(|info| {
+        let msg = info.payload().downcast_ref::<&str>().map(|s| s.to_string())
+            .or_else(|| info.payload().downcast_ref::<String>().cloned()).unwrap_or_default();
+        let at = info.location().map(|l| format!(" at {}:{}", l.file(), l.line())).unwrap_or_default();
+        if let Ok(mut g) = PANIC_MESSAGES.lock() {
+            if g.len() < 100 {
+                g.push(format!("{msg}{at}"));
+            }
+        }
+    }));
+}
+pub fn take_panic_messages() -> Vec<String> {
+    PANIC_MESSAGES.lock().map(|mut g| std::mem::take(&mut *g)).unwrap_or_default()
 }
